@@ -665,9 +665,24 @@ def _cross_shapes_unit(U):
             return Z(v.shape[0]), z3.BoolVal(False)
         raise M.ContractMismatch(f'cross(): {what} is neither None nor a 2-D index array')
 
+    def width_of(s, v):
+        """number of columns of an element of Ir / Ic: 0 for None (no index positions on that side)"""
+        v = s.deref(v)
+        if v is NONE:
+            return z3.IntVal(0)
+        if isinstance(v, VOpt):
+            w = s.deref(v.val)
+            if isinstance(w, VArr) and w.ndim == 2:
+                return z3.If(v.isnone, 0, Z(w.shape[1]))
+        if isinstance(v, VArr) and v.ndim == 2:
+            return Z(v.shape[1])
+        raise M.ContractMismatch('cross(): an element of Ir / Ic is neither None nor a 2-D index array')
+
     def c_func(ex, s, a, kw, node):
         # contract of _func proved by the units cross._func.* / cross._func_eval.*: the r1 x n x r2 block, or None with
-        # info['stop'] set to 'm' / 'func'
+        # info['stop'] set to 'm' / 'func'; the batch handed to the objective has width(Ir) + 1 + width(Ic) columns
+        ex.oblige(s, 'call-pre', '_func: the batch rows are multi-indices of width d (C06: "batches of width d")',
+                  width_of(s, a[2]) + 1 + width_of(s, a[3]) == d, node)
         n_i, none_g = rows_of(s, a[1], 'Ig[i]')
         ex.oblige(s, 'call-pre', '_func: the grid block Ig[i] is an array', z3.Not(none_g), node)
         r1, _ = rows_of(s, a[2], 'Ir[i]')
@@ -709,7 +724,7 @@ def _cross_shapes_unit(U):
             s.assume(T.d0(tg) == r1, T.d1(tg) == n_i, T.d2(tg) == rn, T.rows(tr) == rn, T.cols(tr) == r2)
         else:
             s.assume(T.d0(tg) == rn, T.d1(tg) == n_i, T.d2(tg) == r2, T.rows(tr) == r1, T.cols(tr) == rn)
-        return VTuple([M.mk_core(tg), M.mk_mat(tr), VArr((rn, ex.fresh_int('w')), None, None, 'i')])
+        return VTuple([M.mk_core(tg), M.mk_mat(tr), VArr((rn, width_of(s, a[2]) + 1), None, None, 'i')])
 
     callees = {'props.erank': c_erank, 'act_two.accuracy': c_acc, 'data.accuracy_on_data': c_aod,
                'cross._func': c_func, 'cross._iter': c_iter}
@@ -734,7 +749,14 @@ def _cross_shapes_unit(U):
         return [('lengths', z3.And(Y.n == d, Ir.n == d + 1, Ic.n == d + 1)),
                 ('Ir[0]-and-Ic[d]-stay-None', z3.And(Ir.arr[0] == 0, Ic.arr[d] == 0)),
                 ('left-index-sets-non-empty', z3.ForAll([t_], z3.Implies(z3.And(0 <= t_, t_ <= d), irw(Ir, t_) >= 1), patterns=[Ir.arr[t_]])),
-                ('right-index-sets-non-empty', z3.ForAll([t_], z3.Implies(z3.And(0 <= t_, t_ <= d), irw(Ic, t_) >= 1), patterns=[Ic.arr[t_]]))]
+                ('right-index-sets-non-empty', z3.ForAll([t_], z3.Implies(z3.And(0 <= t_, t_ <= d), irw(Ic, t_) >= 1), patterns=[Ic.arr[t_]])),
+                ('left-multi-indices-have-one-position-per-mode-to-the-left',
+                 z3.ForAll([t_], z3.Implies(z3.And(0 <= t_, t_ <= d, Ir.arr[t_] != 0), M.OCOLS(Ir.arr[t_]) == t_), patterns=[Ir.arr[t_]])),
+                ('right-multi-indices-have-one-position-per-mode-to-the-right',
+                 z3.ForAll([t_], z3.Implies(z3.And(0 <= t_, t_ <= d, Ic.arr[t_] != 0), M.OCOLS(Ic.arr[t_]) == d - t_), patterns=[Ic.arr[t_]]))]
+
+    def set_from(seq, lo, hi, what):
+        return (what, z3.ForAll([t_], z3.Implies(z3.And(lo <= t_, t_ <= hi), seq.arr[t_] != 0), patterns=[seq.arr[t_]]))
 
     def Lshape(Y, Ir, kk, last_one):
         r_next = z3.If(kk == d - 1, 1, irw(Ir, kk + 1)) if last_one else irw(Ir, kk + 1)
@@ -753,12 +775,15 @@ def _cross_shapes_unit(U):
         return base(s) + [
             ('cores-left-of-i-carry-the-new-left-index-sets', q(Y, 0, i, Lshape(Y, Ir, k, False))),
             ('cores-from-i-on-are-those-of-Y0', q(Y, i, d, Y.arr[k] == A0[k])),
-            ('carry-fits-between-core-i-1-and-core-i', z3.And(Z(R.shape[0]) == irw(Ir, i), Z(R.shape[1]) == z3.If(i < d, T.d0(A0[i]), 1)))]
+            ('carry-fits-between-core-i-1-and-core-i', z3.And(Z(R.shape[0]) == irw(Ir, i), Z(R.shape[1]) == z3.If(i < d, T.d0(A0[i]), 1))),
+            set_from(Ir, 1, i, 'left-index-sets-of-the-processed-modes-are-set')]
 
-    def rtl_inv(s, j):
+    def rtl_inv(s, j, pre_iteration):
         Y, Ir, Ic, R = parts(s)
         i = d - 1 - j
         return base(s) + [
+            set_from(Ir, 1, d, 'all-left-index-sets-are-set'),
+            set_from(Ic, i + 1 if pre_iteration else 0, d - 1, 'right-index-sets-of-the-processed-modes-are-set'),
             ('cores-right-of-i-carry-the-new-right-index-sets', q(Y, i + 1, d, Rshape(Y, Ic, k, False))),
             ('cores-up-to-i-carry-the-left-index-sets', q(Y, 0, i + 1, Lshape(Y, Ir, k, True))),
             ('carry-fits-between-core-i-and-core-i+1',
@@ -766,7 +791,8 @@ def _cross_shapes_unit(U):
 
     def inv_while(ex, s, j):
         Y, Ir, Ic, R = parts(s)
-        return base(s) + [('all-cores-carry-the-right-index-sets', q(Y, 0, d, Rshape(Y, Ic, k, True)))]
+        return base(s) + [('all-cores-carry-the-right-index-sets', q(Y, 0, d, Rshape(Y, Ic, k, True))),
+                          set_from(Ir, 1, d, 'all-left-index-sets-are-set'), set_from(Ic, 0, d - 1, 'all-right-index-sets-are-set')]
 
     def inv_ltr(ex, s, j):
         Y, Ir, Ic, R = parts(s)
@@ -775,10 +801,11 @@ def _cross_shapes_unit(U):
             ('cores-left-of-i-carry-the-new-left-index-sets', q(Y, 0, i, Lshape(Y, Ir, k, False))),
             ('cores-from-i-on-carry-the-right-index-sets', q(Y, i, d, Rshape(Y, Ic, k, True))),
             ('carry-fits-between-core-i-1-and-core-i',
-             z3.And(Z(R.shape[0]) == irw(Ir, i), Z(R.shape[1]) == z3.If(i == 0, 1, irw(Ic, i))))]
+             z3.And(Z(R.shape[0]) == irw(Ir, i), Z(R.shape[1]) == z3.If(i == 0, 1, irw(Ic, i)))),
+            set_from(Ir, 1, d, 'all-left-index-sets-are-set'), set_from(Ic, 0, d - 1, 'all-right-index-sets-are-set')]
 
-    loops = {0: {'inv': inv_pre_ltr}, 1: {'inv': lambda ex, s, j: rtl_inv(s, j)}, 2: {'inv': inv_while},
-             3: {'inv': inv_ltr}, 4: {'inv': lambda ex, s, j: rtl_inv(s, j)}}
+    loops = {0: {'inv': inv_pre_ltr}, 1: {'inv': lambda ex, s, j: rtl_inv(s, j, True)}, 2: {'inv': inv_while},
+             3: {'inv': inv_ltr}, 4: {'inv': lambda ex, s, j: rtl_inv(s, j, False)}}
     ex = U.executor(fn, loops=loops, callees=callees, axioms=AX, lenient=True)
     if ex.nloops != 5:
         raise M.ContractMismatch(f'cross(): expected 5 loops (two pre-iteration sweeps, while, two half-sweeps), found {ex.nloops}')
